@@ -25,6 +25,7 @@ const (
 	SHeap  // (Array Int (Array Int Int))
 	SSHeap // (Array Int (Array Int BSeq))
 	SSet   // (Array Int Bool)
+	SKeySet // (Array BSeq Bool): set of string keys (ghost: keys visited by a map-range loop)
 )
 
 func (s Sort) String() string {
@@ -45,6 +46,8 @@ func (s Sort) String() string {
 		return "(Array Int (Array Int BSeq))"
 	case SSet:
 		return "(Array Int Bool)"
+	case SKeySet:
+		return "(Array BSeq Bool)"
 	}
 	return "?"
 }
@@ -242,7 +245,7 @@ func sel(a, i T) T {
 		s = SIArr
 	case SSHeap:
 		s = SSArr
-	case SSet:
+	case SSet, SKeySet:
 		s = SBool
 	default:
 		panic("sel on non-array " + a.S)
